@@ -173,6 +173,10 @@ def cases(tier, rng):
             if rng.random() < 0.25:
                 c['scr'] = True
             yield c
+            if i % 6 == 1:
+                # the function twin of an enveloped tone: ramped_tone(duration) = tone(duration) * envelope(duration) must
+                # agree on the sample count for every duration (incl. k + 0.5 samples), so the call never fails on a shape
+                yield dict(c, call='ramped', start=0, extra='auto', window=c['window'] if call != 'cos2' else 'cosine-squared')
         # sequences of memoised envelope calls whose arguments collide under a wrong cache key
         yield from sc.memo_cases(fs, rng, 30 if quick else 400, ['envelope', 'cos2envelope'])
 
@@ -191,6 +195,8 @@ def _envfn_call(case):
     cfg = {'start': case['start'], 'dur': case['dur'], 'rise': case['rise'], 'int0': case.get('int0')}
     start, dur, rise = (sc.tsec(cfg, k, fs) for k in ('start', 'dur', 'rise'))
     kw = {} if case['extra'] == 'auto' else {'samples': _envfn_params(case)[3]}
+    if case['call'] == 'ramped':
+        return stim.ramped_tone(fs, fs / 8.0, 1.5, dur, rise_time=rise, window=case['window'], phase=0.3)
     if case['call'] == 'cos2':
         return stim.cos2envelope(fs, dur, rise, start_time=start, **kw)
     if case['call'] == 'kw':
@@ -236,6 +242,10 @@ def agree(case, res, mo):
         factors = sc.parse_factors(mo[1:])
         _, _, rise, _ = _envfn_params(case)
         want = sc.frag_values(case['fs'], {'kind': 'ramp', 'window': case['window'], 'rise': rise}, factors)
+        if case['call'] == 'ramped':
+            from psiaudio import stim
+            carrier = stim.tone(case['fs'], case['fs'] / 8.0, 1.5, 0.3, samples=len(want))
+            want = [float(v) for v in carrier * np.asarray(want, dtype=float)]
         for got in res[1:]:
             if got != want:
                 return f'envelope values differ from the model recipes: {got} vs {want}'
@@ -302,6 +312,8 @@ def _envfn_oracle(case, res):
     a = np.asarray(res[1], dtype=float)
     if len(a) != n:
         return f'envelope() returned {len(a)} samples, expected {n} (round(start*fs)+round(duration*fs) = {elb + d})'
+    if case['call'] == 'ramped':
+        return None         # carrier * envelope: the shape is judged on the bare envelope cases; here count and values
     return _shape(a, elb, d, r, case['window'])
 
 
